@@ -839,6 +839,123 @@ func envCase(c *fw.Ctx, s *section, r *fw.Rand, doc map[string]interface{}, ls [
 			}
 		}()
 	}
+	var effective []leaf // leaves whose variable was seen to take effect over the default
+	defer func() {
+		// every switch of the section, every time: the file says true, the environment says
+		// false. (A variable name that has no effect at all is left alone.)
+		probe := func(l leaf, fileV interface{}, ev string) (saved string, ok bool) {
+			defer func() {
+				if rec := recover(); rec != nil {
+					ok = false
+				}
+			}()
+			fd := clone(doc)
+			setPath(fd, l.path, fileV)
+			raw, _ := json.Marshal(fd)
+			cfg := s.newCfg()
+			cfg.SetBaseDir(c.Dir)
+			if cfg.LoadJSON(raw) != nil {
+				return "", false
+			}
+			name := envName(s, l.path)
+			if ev != "" {
+				os.Setenv(name, ev)
+				defer os.Unsetenv(name)
+			}
+			if cfg.ApplyEnvVars() != nil {
+				return "", false
+			}
+			t, err := cfg.ToJSON()
+			return string(t), err == nil
+		}
+		for _, l := range ls {
+			if _, isBool := l.val.(bool); !isBool {
+				continue
+			}
+			fTrue, ok1 := probe(l, true, "")
+			fFalse, ok2 := probe(l, false, "")
+			upT, ok3 := probe(l, false, "true")
+			if !ok1 || !ok2 || !ok3 || fTrue == fFalse || upT != fTrue {
+				continue // the switch cannot be set through the file, or the variable name has no effect
+			}
+			down, ok4 := probe(l, true, "false")
+			if !ok4 {
+				continue
+			}
+			c.Eval(fmt.Sprintf("env-over-file/switch/%s/%s", s.name, pathStr(l.path)))
+			if down != fFalse {
+				leafKey := pathStr(l.path)
+				if len(l.path) > 1 && strings.HasSuffix(l.path[0], "_options") {
+					leafKey = l.path[0] + ".<any switch>" // one merge of an options struct, one call site
+				}
+				c.Violation("C15/"+s.name+"/env-false-ignored-over-file-true/"+leafKey,
+					fmt.Sprintf("%s=true switches %s on over a file that says false, but %s=false does not switch it off over a file that says true", envName(s, l.path), pathStr(l.path), envName(s, l.path)),
+					map[string]interface{}{"saved": down})
+			}
+		}
+		// the variable wins over what the file says, not only over the default: the file sets
+		// the leaf to one accepted value, the environment to another
+		for n := 0; n < 12 && len(effective) > 0; n++ {
+			l := effective[r.Intn(len(effective))]
+			cs := candidates(r, l.path[len(l.path)-1], l.val)
+			fileV, envV := cs[r.Intn(len(cs))], cs[r.Intn(len(cs))]
+			ev, ok := envValue(envV.v)
+			if !ok || ev == "" || fileV.zero || sameJSON(fileV.v, envV.v) {
+				continue
+			}
+			if envV.zero || strings.Contains(envV.kind, "malformed") || strings.Contains(fileV.kind, "malformed") {
+				continue // only well-formed, non-zero values are demanded
+			}
+			if ev == "false" || ev == "0" || ev == "0s" {
+				continue // zero-class values: numbers are not demanded (zero means unset here); booleans are enumerated below
+			}
+			fd, ed := clone(doc), clone(doc)
+			setPath(fd, l.path, fileV.v)
+			setPath(ed, l.path, envV.v)
+			fileL := loadSection(c, s, fd, "env-file:"+pathStr(l.path))
+			want := loadSection(c, s, ed, "env-want:"+pathStr(l.path))
+			if !fileL.ok || !want.ok || fileL.text == want.text {
+				continue
+			}
+			name := envName(s, l.path)
+			func() {
+				defer func() {
+					if rec := recover(); rec != nil {
+						c.Violation("C15/"+s.name+"/env-panic@"+site(debug.Stack()), fmt.Sprintf("ApplyEnvVars panicked with %s=%q: %v", name, ev, rec), nil)
+					}
+				}()
+				raw, _ := json.Marshal(fd)
+				cfg := s.newCfg()
+				cfg.SetBaseDir(c.Dir)
+				if cfg.LoadJSON(raw) != nil {
+					return
+				}
+				c.Journal("env over file %s=%q (file: %v)", name, ev, fileV.v)
+				os.Setenv(name, ev)
+				err := cfg.ApplyEnvVars()
+				os.Unsetenv(name)
+				if err != nil {
+					return
+				}
+				t, terr := cfg.ToJSON()
+				if terr != nil {
+					return
+				}
+				c.Eval(fmt.Sprintf("env-over-file/%s/%s/%s", s.name, pathStr(l.path), envV.kind))
+				if string(t) == fileL.text {
+					leafKey := pathStr(l.path)
+					if s.name == "badger" && l.path[0] == "badger_options" && (ev == "false" || ev == "0" || ev == "0s") {
+						// one defect, one key: the badger loader merges options skipping zero
+						// values (known finding), whichever option and whichever way it arrives
+						leafKey = "badger_options.<any>=zero-value"
+					}
+					c.Violation("C15/"+s.name+"/env-value-ignored-over-file-value/"+leafKey,
+						fmt.Sprintf("%s=%q takes effect over the default but is ignored when the file says %v: the file's value is kept and saved", name, ev, fileV.v),
+						map[string]interface{}{"saved": json.RawMessage(t), "expected": json.RawMessage(want.text)})
+				}
+			}()
+		}
+	}()
 	for n := 0; n < 25; n++ {
 		l := ls[r.Intn(len(ls))]
 		cs := candidates(r, l.path[len(l.path)-1], l.val)
@@ -885,6 +1002,9 @@ func envCase(c *fw.Ctx, s *section, r *fw.Rand, doc map[string]interface{}, ls [
 			case viaJSON.ok && string(t) == viaJSON.text:
 				c.Eval(fmt.Sprintf("env/%s/%s/%s/same-as-json", s.name, pathStr(l.path), cd.kind))
 				c.Count("env_effective", 1)
+				if string(t) != base.text {
+					effective = append(effective, l)
+				}
 			case !viaJSON.ok:
 				// JSON refuses the value but the environment path accepted it and changed the configuration
 				if verr := cfg.Validate(); verr != nil {
